@@ -155,7 +155,9 @@ func init() {
 		alt := (rng.Float64() - 0.5) * 4 * wAlt
 		lon2, lat2, alt2 := lon+span()*wLon, lat+span()*wLon*0.7, alt+span()*wAlt
 		radius := []float64{0, 0, 0.3, 0.8, 1.4}[rng.Intn(5)] * math.Min(wMetres, wAlt*4)
+		anyZoom := false
 		if rng.Intn(6) == 0 {
+			anyZoom = true
 			// radius 0 returns exactly the line's IDs at EVERY zoom pair 0..35 x 0..35 (positive radii stay at moderate zooms:
 			// fitting them on a grid of a few tiles is outside what the function documents)
 			h, v = int64(rng.Intn(36)), int64(rng.Intn(36))
@@ -173,7 +175,7 @@ func init() {
 			}
 			radius = 0
 		}
-		if rng.Intn(8) == 0 {
+		if !anyZoom && rng.Intn(8) == 0 {
 			// radius 0, a segment placed symmetrically about a voxel corner: its midpoint is the corner itself up to one rounding,
 			// and start + 0.5·(end − start) need not round like end + 0.5·(start − end) — the corridor must bisect the segment in
 			// the same direction as the line query it is compared with
@@ -193,6 +195,18 @@ func init() {
 			if rng.Intn(2) == 0 {
 				lon, lat, alt, lon2, lat2, alt2 = lon2, lat2, alt2, lon, lat, alt
 			}
+		}
+		if !anyZoom && rng.Intn(10) == 0 { // (positive radii only at the moderate zooms the widths above were computed for)
+			// both end points inside ONE voxel, a positive radius below one voxel width: the measured result still leaves out the
+			// diagonal and far candidates of the search box
+			k := math.Floor((lon + 180) / wLon)
+			c := (k+0.5)*wLon - 180
+			lon, lon2 = c-0.1*wLon, c+0.1*wLon
+			lat2 = lat
+			kf := math.Floor(alt / wAlt)
+			alt = (kf + 0.5) * wAlt
+			alt2 = alt
+			radius = []float64{0.1, 0.3, 0.6}[rng.Intn(3)] * math.Min(wMetres, wAlt*4)
 		}
 		skips := "0"
 		if rng.Intn(3) == 0 {
